@@ -121,6 +121,7 @@ def run(ck):
             if out2.get("%s%d" % (tag, i)) != b.hex():
                 ck.violation("single-block decryption is not the inverse of encryption", {"class": None, "key": k.hex(), "block": b.hex(), "direction": tag, "got": out2.get("%s%d" % (tag, i))})
     related_key_sequences(ck, exe)
+    parallel_purity(ck, exe, ["aes %s %s %s" % (r.choice("ed"), rnd16(r).hex(), rnd16(r).hex()) for _ in range(24)], "single-block AES objects with different keys", iters=3000)
     ck.cov["optional_openssl_crosscheck"] = openssl_crosscheck(ck, cases)
     return finish_proof(ck, rule="FIPS-197 App. B/C.1 vectors, AESAVS VarTxt/VarKey families, every byte value 0..255 placed in block and key positions (touches every S-box / log-table index), random key/block pairs; both directions; plus dec(enc(b))=b / enc(dec(b))=b on the implementation. distinct = distinct case lines",
                         assumptions=["little-endian host (state_t union aliasing of g[]/s[][])"])
